@@ -356,6 +356,7 @@ func runC12(c *Ctx) error {
 		return err
 	}
 	c.c12LateMethods()
+	c.c12HostMethodsByName()
 	c.c12LiteralForms()
 	c.c12CompositeFields()
 	c.c19HostStructs() // several host-built instances of one type keep their own fields (shared with C19)
@@ -383,6 +384,48 @@ func (c *Ctx) c12LiteralForms() {
 		}
 		if err != nil || out != k.want {
 			c.Rep.Violate(Violation{Kind: "oracle", Cut: "literal-forms", Input: k.src, Impl: fmt.Sprintf("%q err=%v", out, err), Oracle: fmt.Sprintf("%q (or an error for a literal without field names)", k.want)})
+		}
+	}
+}
+
+// c12HostMethodsByName: the host finds fields AND methods of a script instance by name (Value.GetAttr): a method comes
+// back bound to its instance, on every instance of the type and of a type defined from it, and calling it updates the
+// instance's fields
+func (c *Ctx) c12HostMethodsByName() {
+	vm := goat.New()
+	src := "type Counter struct {\n\tN int\n\tTag string\n}\nfunc (k *Counter) Add(d int) int {\n\tk.N += d\n\treturn k.N\n}\nfunc (k *Counter) Name() string {\n\treturn k.Tag + \"!\"\n}\ntype Tally Counter\na := &Counter{N: 1, Tag: \"a\"}\nb := &Counter{N: 10, Tag: \"b\"}\nt := &Tally{N: 100, Tag: \"t\"}\n"
+	if _, err := vm.Eval(fstest.MapFS{}, "main", src); err != nil {
+		c.Rep.Violate(Violation{Kind: "oracle", Cut: "host-method-by-name", Input: src, Impl: err.Error(), Oracle: "evaluates"})
+		return
+	}
+	for _, k := range []struct {
+		inst string
+		add  int
+		want string
+	}{{"a", 5, "6 a!"}, {"b", 7, "17 b!"}, {"a", 1, "7 a!"}, {"t", 3, "103 t!"}} {
+		c.Rep.Oracle["host-method-by-name"]++
+		got := func() (res string) {
+			defer func() {
+				if r := recover(); r != nil {
+					res = fmt.Sprintf("panic: %v", r)
+				}
+			}()
+			inst := vm.Get("main." + k.inst)
+			r1, err := vm.Func(inst.GetAttr("Add"), 1, goat.Int(k.add))
+			if err != nil {
+				return "Add: " + err.Error()
+			}
+			r2, err := vm.Func(inst.GetAttr("Name"), 1)
+			if err != nil {
+				return "Name: " + err.Error()
+			}
+			if f := inst.GetAttr("N"); f.Int() != r1[0].Int() {
+				return fmt.Sprintf("field N reads %v after Add returned %v", f, r1[0])
+			}
+			return r1[0].String() + " " + r2[0].String()
+		}()
+		if got != k.want {
+			c.Rep.Violate(Violation{Kind: "oracle", Cut: "host-method-by-name", Input: fmt.Sprintf("%s\n// host: Get(main.%s).GetAttr(\"Add\") called with %d, then GetAttr(\"Name\")", src, k.inst, k.add), Impl: got, Oracle: k.want})
 		}
 	}
 }
